@@ -632,6 +632,38 @@ def run(tier):
         absorb_check("absorb-parser", key, (lambda text=text: SmtLibParser(Environment()).get_script(StringIO(text)).get_last_formula()), want,
                      probe=(lambda f: f.arg(0) if f.args() else f), extra={"script": text})
     chk.cov["absorbing_operand_calls"] = {"constructor": nabs, "scripts": ncalls - n2 - nabs}
+    # ---- ENVIRONMENT-FLAGS family: the verdict on an application does not depend on the Environment's configuration flags
+    #      (except where a flag is ABOUT the call: infix operators need enable_infix_notation, the empty name allow_empty_var_names)
+    from . import envflags
+    n3 = ncalls
+    for fl in envflags.combos():
+        fenv = Environment()
+        envflags.set_flags(fenv, fl)
+        from pysmt.environment import push_env, pop_env
+        push_env(fenv)              # infix operators consult the CURRENT environment's flag
+        fm = fenv.formula_manager
+        fi, fj, fr = fm.Symbol("fl_i", INT), fm.Symbol("fl_j", INT), fm.Symbol("fl_r", REAL)
+        lab = envflags.label(fl)
+        IN, RE, BO = ("Int",), ("Real",), ("Bool",)
+        for key, thunk, want in (
+                ("Plus(Int, Int)", lambda: fm.Plus(fi, fj), IN), ("Plus(Int, Real)", lambda: fm.Plus(fi, fr), None),
+                ("Div(Int, Int0)", lambda: fm.Div(fi, fm.Int(0)), IN), ("Div(Int, Real0)", lambda: fm.Div(fi, fm.Real(0)), None),
+                ("Div(Real, Int0)", lambda: fm.Div(fr, fm.Int(0)), None), ("Div(Int, Int)", lambda: fm.Div(fi, fj), IN),
+                ("Div(Real, Real 2)", lambda: fm.Div(fr, fm.Real(2)), RE), ("Div(Int, Real 2)", lambda: fm.Div(fi, fm.Real(2)), None),
+                ("LE(Div(Int, Int0), Real)", lambda: fm.LE(fm.Div(fi, fm.Int(0)), fr), None), ("Times(Int, Div(Int, Int0))", lambda: fm.Times(fi, fm.Div(fj, fm.Int(0))), IN),
+                ("infix Int + Real", lambda: fi + fr, None), ("infix Int < Real", lambda: fi < fr, None), ("infix Bool & Int", lambda: fm.TRUE() & fi, None),
+                ("Symbol('', Int) = Real", lambda: fm.Equals(fm.Symbol("", INT), fr), None)):
+            absorb_check("flags", "%s:%s" % (lab, key), thunk, want)
+        # calls a flag is about: accepted exactly when the flag is on
+        for key, thunk, want, on in (("infix Int + Int", lambda: fi + fj, IN, fl["enable_infix_notation"]),
+                                     ("infix Int <= Int", lambda: fi <= fj, BO, fl["enable_infix_notation"]),
+                                     ("Symbol('', Int)", lambda: fm.Symbol("", INT), IN, fl["allow_empty_var_names"])):
+            absorb_check("flags", "%s:%s" % (lab, key), thunk, want if on else None)
+        # Div(Real, Real0): a DIV node when enable_div_by_0 is on; with the flag off the constructor divides by zero itself and raises
+        if fl["enable_div_by_0"]:
+            absorb_check("flags", "%s:Div(Real, Real0)" % lab, lambda: fm.Div(fr, fm.Real(0)), RE)
+        pop_env()
+    chk.cov["environment_flag_constructor_calls"] = ncalls - n3
     chk.note("absorbing-operand family done (%d constructor calls, %d scripts)" % (nabs, ncalls - n2 - nabs))
     chk.cov["constructor_calls"] = ncalls
     # ------------------------------------------------------------------ the parser's own sort checks
